@@ -638,3 +638,13 @@ func c11Lookahead(c *Ctx) {
 	}
 	r.Min("C11-A2", n, 4, "option look-ahead reads in packages node and server")
 }
+
+func init() {
+	old := registry["C11"].Run
+	registry["C11"].Run = func(c *Ctx) {
+		old(c)
+		c.R.Clause("C11-A6", "a last-element index is guarded by non-emptiness on the command paths")
+		n := lastElemGuarded(c, "C11-A6", []string{"node", "server"}, nil)
+		c.R.Min("C11-A6", n, 5, "X[len(X)-k] expressions in the command path")
+	}
+}
